@@ -39,6 +39,7 @@ type gctx struct {
 }
 
 func (g *gctx) pick(label string, n int) int { return rapid.IntRange(0, n-1).Draw(g.t, label) }
+
 // chance is true once in outOf draws and shrinks towards false; early shrinks towards true.
 func (g *gctx) chance(label string, outOf int) bool {
 	return rapid.IntRange(0, outOf-1).Draw(g.t, label) == outOf-1
